@@ -313,6 +313,7 @@ class World:
         self.history = []        # every cell delivered so far (dst, src, bytes) — material for replays
         self.established = {}    # (cid, k) -> responder end of a hop accepted with genuine material
         self.nongenuine = set()  # circuits with a hop accepted on non-genuine material (no agreement expected)
+        self.tampered = False    # the harness altered / forged / redirected something (else: delays, drops, replays only)
         self.slice = 5.0 if nht is None else min(5.0, 0.9 * nht)
         self.sym = Sym(self.rt, self.OpenSSLSK)
         st = self.tn.PEER_FLAG_SPEED_TEST
@@ -513,7 +514,7 @@ class World:
                 ov = self.nodes[0].overlay
                 c = ov.circuits.get(p.circuit_id)
                 hop = c.unverified_hop if c is not None else None
-                att = {"cid": p.circuit_id, "ident": p.identifier, "X": p.key, "expired": False,
+                att = {"cid": p.circuit_id, "ident": p.identifier, "X": p.key, "expired": False, "step": self.step_no,
                        "x": hop.dh_secret if hop is not None else None,
                        "target_pk": hop.peer.public_key.get_crypt_pk() if hop is not None else None,
                        "target_bin": hop.peer.public_key.key_to_bin() if hop is not None else None,
@@ -527,8 +528,9 @@ class World:
                 es = self.nodes[idx].overlay.exit_sockets.get(p.circuit_id)
                 if es is not None and es.hop.keys is not None:
                     self.sym.session(es.hop.keys)
-                self.emitted_created[p.key] = {"idx": idx, "cid": p.circuit_id, "auth": p.auth,
-                                               "cands": p.candidates_enc, "ident": p.identifier}
+                self.emitted_created.setdefault(p.key, {"idx": idx, "cid": p.circuit_id, "auth": p.auth,
+                                                        "cands": p.candidates_enc, "ident": p.identifier,
+                                                        "step": self.step_no})
 
     def responder_keys(self, info):
         ov = self.nodes[info["idx"]].overlay
@@ -631,8 +633,14 @@ class World:
                                 ctx.oracle_fail(f"{site}:attacker-holds-accepted-keys",
                                                 "the attacker can derive the session keys the originator accepted",
                                                 self.replay_of("attacker derives accepted keys"))
-            # O4: genuine answer -> both ends hold identical keys, a cell crosses
             info = self.emitted_created.get(p.key)
+            # an answer produced BEFORE the outstanding attempt was even sent belongs to an earlier attempt
+            if info is not None and info["step"] < att["step"]:
+                ctx.oracle_fail(f"{site}:accepted-answer-of-earlier-attempt",
+                                "the accepted answer was produced by its responder before the outstanding attempt was "
+                                "sent: an answer to an earlier attempt was taken for the current one",
+                                self.replay_of("answer of an earlier attempt accepted"))
+            # O4: genuine answer -> both ends hold identical keys, a cell crosses
             if info is not None and info["auth"] == p.auth and p.key not in self.forged_keys and ok_auth \
                     and self.nodes[info["idx"]].my_peer.public_key.get_crypt_pk() == att["target_pk"]:
                 rk = self.responder_keys(info)
@@ -655,6 +663,14 @@ class World:
             else:
                 self.nongenuine.add(cid)
                 ctx.count("accept:non-genuine-material")
+                if not self.tampered:
+                    # nobody altered, forged or redirected anything (only delays / drops / replays of genuine cells,
+                    # timeouts, API calls): every accepted hop must be the product of an exchange with the selected peer
+                    who = f"node {info['idx'] + 1}" if info is not None else "nobody known"
+                    ctx.oracle_fail(f"{site}:honest-exchange-keyed-with-another-node",
+                                    f"all parties honest, yet the hop recorded for the selected peer was completed by "
+                                    f"an answer of {who}: the two ends of the hop do not hold identical keys",
+                                    self.replay_of("honest exchange keyed with another node"))
         # circuits that appeared with hops already set
         for cid, c in ov.circuits.items():
             if cid not in before and len(c.hops) > 0:
@@ -791,6 +807,8 @@ class World:
         self.step_no += 1
         self.calls, self.sent = [], []
         before = self.snapshot()
+        if data is not None or src is not None:
+            self.tampered = True
         self.history.append(Held(src or h.src, h.dst, h.data if data is None else data, h.seq, h.kind, h.cid,
                                  h.from_idx))
         try:
@@ -1189,6 +1207,75 @@ async def sc_api_retry(ctx, rng, desc, hops, variant):
         await w.close()
 
 
+async def sc_api_retarget(ctx, rng, desc, hops, pos, order):
+    """all parties honest: the answer for hop `pos` is slow; before the retry cache times out the application
+    re-targets the pending hop through the public API (send_initial_create / send_extend with another candidate, or the
+    same one); the slow answer of the first attempt then arrives before / after the answer of the second attempt"""
+    w = await build_world(ctx, rng, desc)
+    try:
+        c = await start_circuit(w, hops)
+        ov = w.nodes[0].overlay
+        held = []
+        n_created = [0]
+
+        async def on_msg(h: Held):
+            if h.kind == 3 and not held:
+                n_created[0] += 1
+                if n_created[0] == pos:
+                    held.append(h)
+                    return "handled"
+            return None
+        await run_fifo(w, 80, on_msg)
+        if held and c is not None and c.unverified_hop is not None and ov.request_cache.get("retry", c.circuit_id):
+            old = c.unverified_hop.peer
+            used = {h.peer.public_key.key_to_bin() for h in c.hops} | {old.public_key.key_to_bin()}
+            final = len(c.hops) + 1 == c.goal_hops
+            pool = [n for n, fl in zip(w.nodes[1:], w.flags[1:])
+                    if (w.tn.PEER_FLAG_EXIT_BT in fl) == final and n.my_peer.public_key.key_to_bin() not in used]
+            same = desc.get("same", False) or not pool or c.required_exit is not None
+            target = old if same else rng.choice(pool).my_peer
+            ctx.count("retarget:" + ("same-peer" if same else "other-peer") + (":first-hop" if pos == 1 else ":extend"))
+            if pos == 1:
+                def line(_):
+                    return f"0 sendcreate {c.circuit_id} [{w.peer_sym(target)}] 2 {w.env_s(0, c.circuit_id)}"
+                await w.api(lambda: ov.send_initial_create(c, [target], 2), line)
+            else:
+                tbin = target.public_key.key_to_bin()
+
+                def line(_):
+                    return f"0 sendextend {c.circuit_id} [{w.sym.static_of_bin(tbin)}] 2 {w.env_s(0, c.circuit_id)}"
+                await w.api(lambda: ov.send_extend(c, [tbin], 2), line)
+            if order == "old-first":
+                await w.deliver(held[0])
+                await run_fifo(w, 80)
+            elif order == "new-first":
+                await run_fifo(w, 80)
+                await w.deliver(held[0])
+            elif order == "old-twice":
+                await w.deliver(held[0])
+                await w.deliver(held[0])
+                await run_fifo(w, 80)
+            else:  # interleaved: the old answer overtakes the new one on the last link
+                seen = [0]
+
+                async def overtake(h: Held):
+                    if h.kind == 3 and not seen[0]:
+                        seen[0] = 1
+                        await w.deliver(held[0])
+                        await w.deliver(h)
+                        return "handled"
+                    return None
+                await run_fifo(w, 80, overtake)
+        await run_fifo(w, 80)
+        if rng.random() < 0.5:
+            await w.advance(10.2)
+            await run_fifo(w, 80)
+        await w.finish()
+        return w
+    finally:
+        await w.close()
+
+
 async def sc_cross(ctx, rng, desc, hops, variant):
     """two circuits built at once; the first answers are exchanged between them (circuit id only / id + identifier)"""
     w = await build_world(ctx, rng, desc)
@@ -1247,6 +1334,7 @@ async def sc_relay(ctx, rng, desc, hops, pos, variant):
                 others = [i for i in range(1, len(w.nodes)) if i != h.dst and i != h.from_idx]
                 tgt = rng.choice(others)
                 h2 = Held(h.src, tgt, h.data, h.seq, h.kind, h.cid, h.from_idx)
+                w.tampered = True
                 await w.deliver(h2)
                 return "handled"
             if h.kind == 2:
@@ -1280,6 +1368,8 @@ async def sc_relay(ctx, rng, desc, hops, pos, variant):
                         forged = (from_cid, ext_ident, key, auth, cands)
                     else:
                         raise ValueError(variant)
+
+                    w.tampered = True
 
                     def send():
                         rov.send_cell(prev_addr, P.ExtendedPayload(*forged))
@@ -1495,6 +1585,10 @@ def scenario_list(ctx: Ctx, tier: str):
                       "key-flip-bit255", "premature-dup", "redirect"):
                 out.append({"k": "relay", "hops": hops, "pos": pos, "variant": v})
         out.append({"k": "cipher-noise", "hops": hops})
+        for pos in range(1, hops + 1):
+            for order in ("old-first", "new-first", "old-twice", "overtake"):
+                out.append({"k": "api-retarget", "hops": hops, "pos": pos, "order": order})
+            out.append({"k": "api-retarget", "hops": hops, "pos": pos, "order": "old-first", "same": True})
         for v in ("creates-only", "to-joined", "all", "shuffled", "early-and-late", "two-circuits"):
             out.append({"k": "replay-expired", "hops": hops, "variant": v})
         for pos in range(2, hops + 1):
@@ -1536,6 +1630,8 @@ async def run_scenario(ctx, d: dict, sub_seed: int):
         return await sc_relay(ctx, rng, desc, d["hops"], d["pos"], d["variant"])
     if k == "cipher-noise":
         return await sc_cipher_noise(ctx, rng, desc, d["hops"])
+    if k == "api-retarget":
+        return await sc_api_retarget(ctx, rng, desc, d["hops"], d["pos"], d["order"])
     if k == "replay-expired":
         return await sc_replay_expired(ctx, rng, desc, d["hops"], d["variant"])
     if k == "relay-late":
@@ -1553,10 +1649,13 @@ def run_all(ctx: Ctx, scenarios: list[tuple[dict, int]], use_model: bool):
     loop = vclock.new_loop()
     all_lines, all_expect, all_desc = [], [], []
     accepts = 0
+    untampered = 0
     try:
         for d, sub in scenarios:
             w = loop.run_until_complete(run_scenario(ctx, d, sub))
             accepts += w.accepts
+            untampered += 0 if w.tampered else 1
+            ctx.count("tampered:%s" % ("yes" if w.tampered else "no"))
             ctx.count("scenario-accepts:%d" % min(w.accepts, 4))
             all_lines += w.lines
             all_expect += w.expect
@@ -1574,6 +1673,7 @@ def run_all(ctx: Ctx, scenarios: list[tuple[dict, int]], use_model: bool):
             pass
         asyncio.set_event_loop(None)
     ctx.extra["hops_accepted_total"] = ctx.extra.get("hops_accepted_total", 0) + accepts
+    ctx.extra["untampered_scenarios"] = ctx.extra.get("untampered_scenarios", 0) + untampered
     if use_model and all_lines:
         replies = ctx.driver().batch(all_lines)
         n_cmp = 0
